@@ -560,6 +560,60 @@ func structLitField(v ssa.Value, name string) ssa.Value {
 	return nil
 }
 
+// noticeColor: the constant CLine.Color with which fn (Errorf, Logf), or a
+// function it hands its arguments to, sends on the operator channel.
+func noticeColor(fn *ssa.Function, och *types.Var) (int64, bool) {
+	var find func(f *ssa.Function, env map[ssa.Value]ssa.Value, depth int) (int64, bool)
+	find = func(f *ssa.Function, env map[ssa.Value]ssa.Value, depth int) (int64, bool) {
+		if nil == f || nil == f.Blocks || depth > 3 {
+			return 0, false
+		}
+		var out int64
+		found := false
+		eachInstr(f, func(i ssa.Instruction) {
+			if found {
+				return
+			}
+			if sd, ok := i.(*ssa.Send); ok {
+				if fv, _ := loadedField(sd.Chan); nil != fv && fv == och {
+					cv := structLitField(sd.X, "Color")
+					if nil == cv {
+						return
+					}
+					if w, ok := env[cv]; ok {
+						cv = w
+					}
+					if k, ok := constInt(cv); ok {
+						out, found = k, true
+					}
+				}
+				return
+			}
+			c := callCommon(i)
+			if nil == c {
+				return
+			}
+			g := c.StaticCallee()
+			if nil == g || !inModule(g) || g == f || len(g.Params) != len(c.Args) {
+				return
+			}
+			env2 := map[ssa.Value]ssa.Value{}
+			for k, pa := range g.Params {
+				v := c.Args[k]
+				if w, ok := env[v]; ok {
+					v = w
+				}
+				env2[pa] = v
+			}
+			if k, ok := find(g, env2, depth+1); ok {
+				out, found = k, true
+			}
+		})
+		return out, found
+	}
+	return find(fn, map[ssa.Value]ssa.Value{}, 0)
+}
+
 // buildConnectModel explores the admission function for every valuation.
 func buildConnectModel(p *Prog, a *connectAnchors) *connectModel {
 	m := &connectModel{A: a, Consts: map[string]string{}}
@@ -574,6 +628,10 @@ func buildConnectModel(p *Prog, a *connectAnchors) *connectModel {
 	}
 	errorf := p.Func(iobPkg, "Broker", "Errorf")
 	logf := p.Func(iobPkg, "Broker", "Logf")
+	/* The colours Errorf and Logf send with: a line put on the operator
+	channel by hand is told apart by them. */
+	errColor, haveErrColor := noticeColor(errorf, a.FOch)
+	logColor, haveLogColor := noticeColor(logf, a.FOch)
 	fn := a.Fn
 	recvB := fn.Params[0]
 
@@ -697,7 +755,10 @@ func buildConnectModel(p *Prog, a *connectAnchors) *connectModel {
 	mach.OnInstr = func(r *Run, i ssa.Instruction, deferred bool) bool {
 		held := r.User["held"] > 0
 		noteAccess := func(kind, loc string) {
-			if shared(loc) && !held {
+			if shared(loc) && !held && !discovering {
+				/* (The discovery run sees all of the broker's storage
+				under its raw names; the valuations which follow see the
+				guarded fields under the model's, on the same paths.) */
 				unlocked[fmt.Sprintf("%s of %s at %s", kind, loc, p.Pos(posOf(i)))] = true
 				r.Emit("unlocked-access:%s", loc)
 			}
@@ -759,6 +820,31 @@ func buildConnectModel(p *Prog, a *connectAnchors) *connectModel {
 					}
 				}
 				r.Emit("event:%s", t)
+			} else if fv, _ := loadedField(x.Chan); nil != fv && fv == a.FOch && nil != structLitField(x.X, "Line") {
+				/* A notice sent without going through Errorf/Logf. */
+				kind := "notice:other"
+				if cv := structLitField(x.X, "Color"); nil != cv {
+					k, ok := constInt(cv)
+					if !ok {
+						if av := r.Eval(cv); avInt == av.K {
+							k, ok = av.N, true
+						}
+					}
+					switch {
+					case ok && haveErrColor && k == errColor:
+						kind = "notice:err"
+					case ok && haveLogColor && k == logColor:
+						kind = "notice:log"
+					}
+				}
+				r.Emit("%s", kind)
+				for _, x := range valueRoots(structLitField(x.X, "Line"), func(n string) bool { return "fmt.Sprintf" == n }) {
+					if s, ok := constString(x.V); ok {
+						if n, ok := m.Consts[s]; ok {
+							r.Emit("notice:%s", n)
+						}
+					}
+				}
 			} else {
 				r.Emit("blocking-op:send")
 			}
@@ -803,7 +889,15 @@ func buildConnectModel(p *Prog, a *connectAnchors) *connectModel {
 			case "(*log/slog.Logger).Error", "(*log/slog.Logger).Info", "(*log/slog.Logger).Warn", "(*log/slog.Logger).Debug":
 				lvl := name[strings.LastIndex(name, ".")+1:]
 				msg := "?"
-				if s, ok := constString(c.Args[1]); ok {
+				s, ok := constString(c.Args[1])
+				if !ok {
+					/* A message chosen earlier on this path (a table or
+					struct of the refusal's texts). */
+					if a := r.Eval(c.Args[1]); avStr == a.K && strings.HasPrefix(a.S, "const:") {
+						s, ok = strings.TrimPrefix(a.S, "const:"), true
+					}
+				}
+				if ok {
 					msg = s
 					if n, ok := m.Consts[s]; ok {
 						msg = n
